@@ -81,9 +81,12 @@ def run(tier, seed, broken_proof=False):
         kind = "custom" if rng.random() < 0.8 else rng.choice(["system-z", "c-rep"])
         c = {"id": "r%d" % i, "n": n, "sig": sig, "kind": kind}
         if kind == "custom":
-            hi = rng.choice([1, 2, 3, 6, 9])
+            hi = rng.choice([1, 2, 3, 6, 9, 300])
             worlds = [bits(w) for w in itertools.product([False, True], repeat=n)]
-            c["ranks"] = [(w, rng.randrange(0, hi + 1)) for w in worlds]
+            if hi == 300:       # few large rank values, many ties (equal ranks that are not small integers)
+                c["ranks"] = [(w, rng.choice([0, 300, 300, 700, 1000])) for w in worlds]
+            else:
+                c["ranks"] = [(w, rng.randrange(0, hi + 1)) for w in worlds]
         else:
             # a consistent base: reuse the operator generator, keep consistent ones
             for _ in range(30):
